@@ -129,6 +129,7 @@ class ComponentCatalog:
                 if len(interface_node_ids) != len(interfaces_dict.keys()):
                     raise RuntimeError("The number of interface IDs provided is insufficient for this component "
                                        f"(need {len(interfaces_dict.keys())} instead of {len(interface_node_ids)}")
+            if interface_labels is not None:
                 if len(interface_labels) != len(interfaces_dict.keys()):
                     raise RuntimeError("The number of PCI labels and MAC addresses provided is insufficient for this"
                                        f" component (need {len(interfaces_dict.keys())} instead of "
